@@ -127,17 +127,18 @@ def main():
             requests = mod.corpus(build) + mod.generate(rng.fork(build), tier, build)
             requests = C.with_api_paths(requests, rng.fork("paths" + build))
         if requests:
-            rc1, impl, e1 = C.run_lines(binary, ["run"], requests)
+            wleft = {}
+            rc1, impl, e1 = C.run_lines(binary, ["run"], requests, wleft=wleft)
             rc2, model, e2 = C.run_lines(C.driver_path(), [], mod.model_requests(requests, build) if hasattr(mod, "model_requests") else requests)
         else:
-            impl, model, e1, e2 = [], [], "", ""
+            impl, model, e1, e2, wleft = [], [], "", "", {}
         if len(impl) != len(requests):
             problems.append(("correspondence", "harness (%s) died after %d of %d requests: %s" % (build, len(impl), len(requests), e1[-300:]),
                              {"request": requests[len(impl)] if len(impl) < len(requests) else None, "build": build}))
         if len(model) != len(requests):
             print("model driver died after %d of %d requests: %s" % (len(model), len(requests), e2[-300:]))
             sys.exit(2)
-        for req, im, mo in zip(requests, impl, model):
+        for ri, (req, im, mo) in enumerate(zip(requests, impl, model)):
             evaluations += 1
             if mo == "bad-request" or im == "bad-request":
                 print("internal error: bad-request for %r (impl=%r model=%r)" % (req, im[:80], mo[:80]))
@@ -149,6 +150,9 @@ def main():
             if len(samples) < 6 and evaluations % max(1, len(requests) // 5) == 1:
                 samples.append({"build": build, "request": req[:400], "impl": im[:300], "model": mo[:300]})
             o = mod.oracle(req, im, build) if hasattr(mod, "oracle") else None
+            if not o and ri in wleft and hasattr(mod, "panic_with_words_left"):
+                # the operation panicked although scripted words were still unread: the property module says whether that is a failure
+                o = mod.panic_with_words_left(req, wleft[ri], build)
             if o:
                 oracle_fail.append({"build": build, "request": req, "impl": im, "model": mo, "oracle": o})
             if (mod.canon(im) if hasattr(mod, "canon") else im) != mo:
